@@ -118,12 +118,20 @@ class MethodExpander:
             self.depth -= 1
 
     def _body(self, f, body, env) -> LinComb:
-        for st in body:
+        body = list(body)
+        for i, st in enumerate(body):
             if isinstance(st, ast.Return):
                 return self.ev(f, st.value, env)
             if isinstance(st, ast.Assign) and len(st.targets) == 1 and isinstance(st.targets[0], ast.Name):
                 env = dict(env)
                 env[st.targets[0].id] = ("expr", st.value)
+                continue
+            if isinstance(st, ast.AugAssign) and isinstance(st.target, ast.Name) and isinstance(st.op, (ast.Add, ast.Sub, ast.Mult, ast.Div)) and st.target.id in env:
+                # accumulate form: x op= e  ==  x = x op e (value semantics), evaluated now
+                cur = self.ev(f, ast.Name(id=st.target.id, ctx=ast.Load()), env)
+                env = dict(env)
+                env["@acc"] = ("val", cur)
+                env[st.target.id] = ("val", self.ev(f, ast.BinOp(left=ast.Name(id="@acc", ctx=ast.Load()), op=st.op, right=st.value), env))
                 continue
             if isinstance(st, ast.If):
                 t = st.test
@@ -133,10 +141,8 @@ class MethodExpander:
                 if is_self_attr(t) and t.attr in self.flags:
                     v = self.flags[t.attr] != neg
                     arm = st.body if v else st.orelse
-                    # an arm that returns ends the method; otherwise continue after the If
-                    if any(isinstance(s, ast.Return) for s in arm):
-                        return self._body(f, arm, env)
-                    continue
+                    # the chosen arm is executed (it may return, assign or accumulate), then the rest
+                    return self._body(f, list(arm) + body[i + 1 :], env)
                 raise AnalysisError(f"{f.qualname}: branch on {norm(st.test)} outside the value grammar")
             if isinstance(st, ast.Expr) and isinstance(st.value, ast.Constant):
                 continue
@@ -150,6 +156,8 @@ class MethodExpander:
         if isinstance(e, ast.Name):
             if e.id in env:
                 kind, v = env[e.id]
+                if kind == "val":
+                    return v
                 return self.ev(f, v, env)
             return LinComb.atom(e.id)
         if isinstance(e, ast.UnaryOp) and isinstance(e.op, ast.USub):
